@@ -43,6 +43,9 @@ pub(crate) struct Outcome {
     pub ban: Option<u64>,
     pub disconnected: bool,
     pub sent: Vec<packed::LightClientMessage>,
+    pub sent_to: Vec<(PeerIndex, packed::LightClientMessage)>,
+    pub bans: Vec<(PeerIndex, u64)>,
+    pub disconnects: Vec<PeerIndex>,
 }
 
 impl Client {
@@ -57,15 +60,18 @@ impl Client {
     }
 
     fn collect(&self, panicked: bool, peer: PeerIndex) -> Outcome {
-        let ban = self.nc.take_banned().into_iter().filter(|(p, _)| *p == peer).map(|(_, r)| ban_code(&r)).next();
-        let disconnected = self.nc.take_disconnected().contains(&peer);
-        let sent = self
+        let bans: Vec<(PeerIndex, u64)> = self.nc.take_banned().into_iter().map(|(p, r)| (p, ban_code(&r))).collect();
+        let ban = bans.iter().filter(|(p, _)| *p == peer).map(|(_, c)| *c).next();
+        let disconnects = self.nc.take_disconnected();
+        let disconnected = disconnects.contains(&peer);
+        let sent_to: Vec<(PeerIndex, packed::LightClientMessage)> = self
             .nc
             .take_sent()
             .into_iter()
-            .filter_map(|(_, _, data)| packed::LightClientMessage::from_slice(&data).ok())
+            .filter_map(|(_, p, data)| packed::LightClientMessage::from_slice(&data).ok().map(|m| (p, m)))
             .collect();
-        Outcome { panicked, ban, disconnected, sent }
+        let sent = sent_to.iter().map(|(_, m)| m.clone()).collect();
+        Outcome { panicked, ban, disconnected, sent, sent_to, bans, disconnects }
     }
 
     pub(crate) fn connect(&mut self, peer: PeerIndex) -> Outcome {
@@ -104,7 +110,30 @@ pub(crate) fn find_request(out: &Outcome) -> Option<packed::GetLastStateProof> {
 // rendering for the model
 // ---------------------------------------------------------------------------------------
 
+thread_local! {
+    /// when enabled, 32-byte hashes are rendered as small numbers (first-seen order): the model only
+    /// compares them for equality, and short literals keep coqc's parser fast
+    static INTERN: std::cell::RefCell<Option<std::collections::HashMap<Vec<u8>, u64>>> = std::cell::RefCell::new(None);
+}
+
+pub(crate) fn intern_reset(enabled: bool) {
+    INTERN.with(|t| *t.borrow_mut() = if enabled { Some(Default::default()) } else { None });
+}
+
+fn intern(bytes: &[u8]) -> Option<u64> {
+    INTERN.with(|t| {
+        let mut t = t.borrow_mut();
+        t.as_mut().map(|m| {
+            let next = m.len() as u64 + 1000;
+            *m.entry(bytes.to_vec()).or_insert(next)
+        })
+    })
+}
+
 pub(crate) fn hx(h: &packed::Byte32) -> String {
+    if let Some(k) = intern(h.as_slice()) {
+        return format!("{}", k);
+    }
     let mut b = [0u8; 32];
     b.copy_from_slice(h.as_slice());
     format!("{:#x}", U256::from_le_bytes(&b))
@@ -148,6 +177,9 @@ pub(crate) fn xid(vh: &VerifiableHeader) -> String {
         None => data.push(0),
     }
     let h = blake2b_256(&data);
+    if let Some(k) = intern(&h) {
+        return format!("{}", k);
+    }
     format!("{:#x}", U256::from_le_bytes(&h))
 }
 
